@@ -85,6 +85,11 @@ Fixpoint agents_loop (l : list (pyval * pyval)) : outcome :=
 Definition validate_agents (v : pyval) : outcome :=
   match v with PDict l => agents_loop l | _ => Reject end.
 
+(* GridWorldBaseComponent.agents setter (gridworld/base.py:308-316): the same loop, with
+   isinstance(agent, GridWorldAgent); there PAgent stands for a GridWorldAgent *)
+Definition validate_component_agents (v : pyval) : outcome :=
+  match v with PDict l => agents_loop l | _ => Reject end.
+
 (* ---- gridworld/agent.py ------------------------------------------------------------- *)
 Definition validate_encoding (v : pyval) : outcome :=
   assert_ (type_is_int v) ;;
@@ -451,7 +456,8 @@ Inductive attr :=
 | AInitialOrientation | AAgents | AGridRows | AGridCols
 | AAttackMapping (encs : list Z) | ATargetMapping (encs : list Z)
 | ABarrierEncodings (encs : list Z) | AFreeEncodings (encs : list Z)
-| ANullAction (s : nspace) | ANullObservation (s : nspace).
+| ANullAction (s : nspace) | ANullObservation (s : nspace)
+| AComponentAgents.   (* GridWorldBaseComponent.agents (gridworld/base.py): PAgent = a GridWorldAgent *)
 
 Definition dec_attr (code : Z) (param : sx) : option attr :=
   match code with
@@ -469,6 +475,7 @@ Definition dec_attr (code : Z) (param : sx) : option attr :=
   | 27 => option_map AFreeEncodings (sxZs param)
   | 28 => option_map ANullAction (dec_nspace param)
   | 29 => option_map ANullObservation (dec_nspace param)
+  | 30 => Some AComponentAgents
   | _ => None
   end.
 
@@ -494,6 +501,7 @@ Definition validate (a : attr) (v : pyval) : outcome :=
   | ABarrierEncodings e => validate_barrier_encodings e v
   | AFreeEncodings e => validate_free_encodings e v
   | ANullAction s | ANullObservation s => validate_null_point s v
+  | AComponentAgents => validate_component_agents v
   end.
 
 (* the documented domain of attribute a *)
@@ -514,6 +522,7 @@ Definition domain (a : attr) (v : pyval) : bool :=
   | ATargetMapping e => dom_target_mapping e v
   | ABarrierEncodings e | AFreeEncodings e => dom_encodings_opt e v
   | ANullAction s | ANullObservation s => dom_null_point s v
+  | AComponentAgents => dom_agents v
   end.
 
 (* property checker, configuration part: the value was accepted exactly when it lies in the
